@@ -31,7 +31,7 @@ func init() {
 		rule:          "each run draws a world (ini, expr, heredoc, basic, conformance, callbacks), a build variant (lookahead, narrowed definition, extra mapper, generated lexer), a corpus document (valid / invalid / flat unit repeated up to 40 times / nested specimen / multi-byte / empty), in the faults sub-batch a content-fault plan (early EOF, corruption incl. NUL and invalid UTF-8, chunk drop / dup / reorder) and, in the callbacks world, a plan making the j-th callback invocation return ok / NextMatch / a foreign error / a located error; the delivered bytes D go through ParseString, ParseBytes and Parse over a SimReader (delivery schedule, optional read error). Clauses on D: returns within 10^5+10^4*(len(D)+1) logical steps without panic; (AST, nil) or error; lexing failure (Parser.Lex(D) fails) gives a nil AST and that very error, parse failure a non-nil AST; unless a foreign error was injected the error implements participle.Error, carries the supplied filename, 0<=Offset<=len(D), Line/Column recomputed from D and Offset, Error() = [file:]line:col: Message(), and an UnexpectedTokenError names a token Parser.Lex(D) has at that offset. 1 run in 8 measures logical recursion depth instead: a flat unit repeated n and 2n times (n in 8/32/128/512) must grow the depth by less than n/2 frames; nested specimens of depth d and 2d (d in 4/16/64/150) at most 4x linearly. distinct = hash of (world, variant, fired faults, outcome class, error type, error location class, delivered bytes, callback plan); non-trivial = a fault fired or the document is an invalid specimen or a callback plan was active, and the outcome is not decided at the first token",
 		assumptions:   append([]string{"decided for the grammars of the simulated world only, not for the universal quantifier over grammars", "logical step cap and logical depth (instrumented function entries) stand in for termination and stack use; Go cannot recover from real stack exhaustion"}, common...),
 		requireFaults: []string{"early-eof", "corrupt", "drop", "dup", "reorder", "bom", "crlf", "chunk", "stutter", "eof-with-data", "read-error", "callback-outcome-plan", "dup-flat-unit"}}
-	props["C09"] = &propCfg{id: "C09", race: true, needGen: true, quickSeconds: 45, thoroughSecs: 1500, level: "exploration", selfSeeds: 120, confirmRuns: 5, minBudget: 120,
+	props["C09"] = &propCfg{id: "C09", race: true, needGen: true, quickSeconds: 45, thoroughSecs: 1500, level: "exploration", selfSeeds: 80, confirmRuns: 5, minBudget: 120,
 		rule:          "each run builds shared objects before any task exists (1-2 parsers from the six worlds in a drawn build variant, biased to the heredoc world whose definition caches compiled back-reference patterns; 0-2 raw lexer definitions, runtime or generated; optionally the package-level ebnf parser), with map iteration orders inside construction permuted from the tape; optionally runs a sequential prefix of 0-10 operations on them; then 2-6 tasks (real goroutines released one at a time by the tape-driven scheduler, hand-offs hidden from the race detector) perform 1-6 operations each out of ParseString / ParseBytes / Parse(SimReader) / ParseFromLexer / Parser.Lex / Parser.String / ParserForProduction / Definition.Lex, LexString, LexBytes + ConsumeAll / Symbols / Rules / json.Marshal(definition) / SymbolsByRune / ebnf.ParseString / ebnf.Parse / post an error to another task / render errors other tasks produced, over corpus documents (heredoc delimiters from a per-run alphabet so tasks collide on cache keys and every run starts cold) and, in half the runs, fault-derived variants; scheduling strategy per run: sequential (switch at operation boundaries and reads only), random walk over statement-level yields, park-at-hot-site (park before a statement that may write shared state, resume right after a peer touched the same field or variable), PCT (depth 1-3); finally every distinct operation is repeated sequentially (read-back). Oracle O-iso: every result of all three phases equals the result of the same call on an instance constructed fresh for that one call after the run (generated definitions, which have no constructor: the first result seen in the process). Oracle O-race: the Go race detector over the whole run. distinct = hash of (context-switch sequence [(from, to, site)], operation multiset); non-trivial = at least one context switch at a statement-level yield (not an operation boundary or endpoint call)",
 		assumptions:   append([]string{"the race detector reports only real unsynchronised conflicting accesses (no false positives); its misses (shadow-cell eviction, incidental happens-before through process-global standard-library pools) are mitigated by adjacency scheduling but not eliminated", "critical sections under sync.Mutex / sync.Once in the code under test run atomically in simulation", "blocking primitives other than those are not modelled (watchdog -> exit 2)"}, common...),
 		requireFaults: []string{"chunk", "read-error"}}
